@@ -59,9 +59,14 @@ def preimageItem (f : TxFields) (networkId : Nat) : Rlp.Item :=
 
 def preimage (f : TxFields) (networkId : Nat) : List UInt8 := Rlp.encode (preimageItem f networkId)
 
-/-- well-formed fields: what the Go types guarantee (20-byte addresses, slice lengths below 2^64) -/
+/-- a `*big.Int` whose big-endian bytes fit in a Go slice -/
+def Small (n : Nat) : Prop := (bytesOfNatBE n).length < U64
+
+/-- well-formed fields: what the Go types guarantee (uint64 nonce and gas limit, 20-byte addresses, slices and
+big integers that fit in memory) -/
 def TxFields.WF (f : TxFields) : Prop :=
-  f.data.length < U64 ∧ ∀ a, f.to = some a → a.length = 20
+  f.nonce < U64 ∧ f.gasLimit < U64 ∧ Small f.price ∧ Small f.value ∧ f.data.length < U64 ∧
+  ∀ a, f.to = some a → a.length = 20
 
 /-! ## Sender (`YouSigner.Sender`, `recoverPlain`, `ValidateSignatureValues`) -/
 
